@@ -240,6 +240,8 @@ def run(ctx: RuleContext, p: Program) -> None:
     ctx.try_rule(rule_ind_class, p, 'IND-CLASS')
     ctx.try_rule(rule_ind_comment, p, 'IND-COMMENT')
     ctx.try_rule(rule_ind_nowrite, p, 'IND-NOWRITE')
+    from . import round4
+    ctx.try_rule(round4.rule_memo, p, 'MEMO')
     ctx.not_decided += ['concrete indentation strings', 'that inserted raw nodes print their own indent verbatim (C01/C02)']
     ctx.assumptions += ['MetaItem.from_value(indent=...) and BlockComment.from_value(indent=...) use the given indent (IND-CLASS '
                         'checks the generated from_value of MetaItem itself)']
